@@ -25,6 +25,8 @@ def execute(spec, ctx):
     structure = worlds.build_structure(spec)
     pattern = worlds.build_pattern(spec["pattern"])
     rng = seams.install_random(ctx, spec["scripts"][0])
+    if spec["seed"] % 2:
+        findcheck.warmup(ctx, spec, structure)
     ref = "compute"
     counts = set()
     for k, script in enumerate(spec["scripts"]):
@@ -32,6 +34,8 @@ def execute(spec, ctx):
         res = findcheck.call_find(ctx, structure, pattern, spec["atol"], spec["hints"])
         ref = findcheck.oracle_c02(ctx, spec, res, label="script%d" % k, refgroups=ref)
         counts.add(len(res[0]))
+    if spec["seed"] % 3 == 0:
+        findcheck.reuse_phase(ctx, spec, structure, pattern, "c02")
     if findcheck.planted_must(spec) or ref is not None:
         ctx.key(spec["cell"], spec["positions"], spec["pattern"], spec["atol"], spec["hints"])
 
